@@ -3,7 +3,7 @@
    every solver theorem (Properties_C01 ... C14) is stated for an arbitrary [VSOps] with [VSLawful],
    and [vs_defaults_lawful] below shows that an implementation of the required methods only is one. *)
 From Coq Require Import List Bool NArith.
-From PG Require Import Model.VS Proofs.VSLaws Proofs.BitsetLawful Proofs.GenEq Gen.VSDefaults.
+From PG Require Import Model.VS Proofs.VSLaws Proofs.BitsetLawful Proofs.GenEqVS Gen.VSDefaults.
 
 Section C17.
   Context {VS Vr : Type} (R : VSReq VS Vr) (L : ReqLawful R).
@@ -39,7 +39,7 @@ Theorem vs_defaults_match_source :
     /\ (forall a b, gen_union_default R a b = union_default R a b)
     /\ (forall a b, gen_is_disjoint_default R a b = is_disjoint_default R a b)
     /\ (forall a b, gen_subset_of_default R a b = subset_of_default R a b).
-Proof. intros VS Vr R. exact (GenEq.vs_defaults_match_source R). Qed.
+Proof. intros VS Vr R. exact (GenEqVS.vs_defaults_match_source R). Qed.
 
 (* non-vacuity: the bitset over 8 versions implements only the required methods, lawfully *)
 Definition vs_bitset_req_lawful : ReqLawful bitset_req := bitset_req_lawful.
